@@ -1017,9 +1017,13 @@ def unit(root='/repo'):
 
 
     # ------------------------------------------------------------------------------------------------ readdir / readdirplus
-    def must_resub(rx, rep, why):
+    def must_resub(rx0, rep, why):
         def hook(body, fired):
+            rx = rx0
             n = len(re.findall(rx, body, flags=re.S))
+            if n == 0:      # the white space the pattern allows may also hold comments (as for body_resub in vx/build.py)
+                rx = rx.replace(r'\s*', r'(?:\s|//[^\n]*\n)*').replace(r'\s+', r'(?:\s|//[^\n]*\n)+')
+                n = len(re.findall(rx, body, flags=re.S))
             if n != 1:
                 raise X.ExtractError('ANCHOR-LOST closure handed to do_readdir: /%s/ matches %d times' % (rx[:50], n))
             fired.append('ABSTRACT /%s/ -> %s (%s)' % (rx[:60], rep, why))
